@@ -27,12 +27,14 @@ SS(s) == {s[i] : i \in DOMAIN s}
 
 RunMismatches(ev) ==
   LET s == ev.scn
-      tag == <<s.cmd, s.stop, [i \in DOMAIN s.files |-> <<s.files[i].cls, s.files[i].docs>>]>>
+      tag == <<s.cmd, s.stop, s.other, [i \in DOMAIN s.files |-> <<s.files[i].cls, s.files[i].docs>>]>>
       sevEntries == {i \in DOMAIN ev.errors : ev.errors[i].severe /\ ev.errors[i].class \in {"malformedYaml", "readingFile"}}
       fatalEntry == \E i \in DOMAIN ev.errors : ev.errors[i].fatal
-      nBad == Cardinality({<<f, p>> \in (DOMAIN s.files) \X (1..8) : p \in DOMAIN s.files[f].docs /\ s.files[f].docs[p] = "badSchema"})
+      otherJunk == s.cmd # "list" /\ s.other = "junk"
+      nBad == Cardinality({<<f, p>> \in (DOMAIN s.files) \X (1..8) : p \in DOMAIN s.files[f].docs /\ s.files[f].docs[p] \in {"badSchema", "nokindDoc"}})
               + Cardinality({f \in DOMAIN s.files : s.files[f].cls \in {"broken", "nokind"}})
-      stopSevere == s.stop /\ Len(s.severeFiles) > 0
+              + (IF otherJunk THEN 2 ELSE 0)          \* the other directory of a diff carries two unreadable items of its own
+      stopSevere == s.stop /\ (Len(s.severeFiles) > 0 \/ otherJunk)
       attributed == UNION {SS(ev.errors[i].files) : i \in sevEntries}
   IN (IF ev.outcome = "panic" THEN {<<"panic", tag, ev.msg>>} ELSE {})
      \* 1
